@@ -136,6 +136,17 @@ def rule_text(chk, db, cfgname):
                         for ee in bb['ev']:
                             if ee.get('k') == 'call':
                                 conv_calls.add(ee.get('fn', ''))
+    # conversions that throw on values the writer can emit (std::stod & co. throw std::out_of_range when strtod
+    # reports ERANGE, which glibc does for subnormal results)
+    throwing = sorted(c for c in conv_calls if T.short(c) in ('stod', 'stof', 'stold'))
+    chk.count('c08.6.formats')
+    chk.obligation(not throwing, {'reader conversion calls': sorted(T.short(c) for c in conv_calls)[:8],
+                                  'throwing conversions': throwing})
+    if throwing:
+        chk.violation('C08.6', rd, 'reader converts numbers with %s' % ','.join(T.short(c) for c in throwing),
+                      'the OBJ reader converts coordinate text with %s, which throws std::out_of_range for values the '
+                      'writer can emit (subnormal doubles make strtod report ERANGE): ReadOBJ terminates instead of '
+                      'round-tripping the mesh' % ', '.join(throwing), cfg=cfgname)
     for nt, p, ln, desc in forms:
         chk.count('c08.6.formats')
         ex = exact(nt, p)
